@@ -303,6 +303,32 @@ R.contract(
     abstract_str_order=True,   # ids are only ever compared: their order is an arbitrary total order here (see interp.abstract_str_le)
 )
 
+# ---- NaN scores (the property quantifies over them; the contract above models scores as reals).  Same function on
+# an item list of fixed shape [(ia, nan), (ib, sb)] with symbolic ids and a symbolic real second score: the NaN item
+# is never used -- nan >= threshold is False -- so at most one item is used, no pair is formed, no edge is written.
+R.contract(
+    GEL + "observe_retrieval", "C18", name="observe_retrieval[nan-score]", callee=False,
+    types={"ctx": "GelCtx", "state": "GelState", "items": "=[(g_ia, nan()), (g_ib, g_sb)]", "turn": "Optional[int]", "agent": "Optional[str]"},
+    ghost={"g_ia": ("str", "any"), "g_ib": ("str", "any"), "g_sb": ("float", "any")},
+    requires=[("validator-ranges", VALIDATOR)],
+    ensures=[
+        ("nan-scored-item-is-never-used", "result['k_used'] <= 1 and result['pairs_updated'] == 0"),
+        ("no-edge-written", "seq_eq(" + E + ", " + OE + ")"),
+        ("k-in-counts-both", "implies(" + ENABLED + ", result['k_in'] == 2)"),
+    ],
+    raises="none",
+    loops={
+        0: {"index": "_a", "inv": ["pairs_updated == 0 and cap_left == pair_cap", "len(used) <= 1", "seq_eq(edges, old(" + E + "))"]},
+        1: {"index": "_b", "inv": ["pairs_updated == 0 and cap_left == pair_cap", "len(used) <= 1", "seq_eq(edges, old(" + E + "))"]},
+    },
+    locals={"norm": ITEMS, "used": ITEMS, "pairs_updated": "int", "cap_left": "int"},
+    abstract_str_order=True,
+    # at most one item is used: the body of the inner pair loop is dead here
+    unreachable_ok=["if cap_left <= 0:", "break", "idb, sb = used[j]", "key, src, dst = _edge_key", "rec = edges.get(key)", "if rec is None:",
+                    "rec = {", "edges[key] = rec", "w = ", "if mode == ", "inc = ", "rec[", "attrs", "if turn is not None", "pairs_updated += 1",
+                    "cap_left -= 1"],
+)
+
 # ------------------------------------------------------------------------------------------------ history lemma
 def _bounded_under_history():
     """L bounded-under-history: `every edge weight lies in [clamp_min, clamp_max]` as an invariant of histories over
